@@ -57,14 +57,23 @@ Definition strip_star (l : ustr) : ustr :=
   | [] => l
   end.
 
-(* [normalize_comment_string]: line 0 is only trimmed; later lines are trimmed
-   and lose one leading '*' (and one blank after it) *)
+(* [normalize_comment_string]: every line is trimmed; the continuation lines
+   (all but line 0) additionally lose one leading '*' (and one blank after
+   it), but only when the attribute is star-decorated:
+     let decorated = s.split('\n').skip(1).map(|s| s.trim())
+                      .filter(|s| !s.is_empty()).all(|s| s.starts_with('*')); *)
 Definition norm_first (l : ustr) : ustr := trim l.
 Definition norm_cont (l : ustr) : ustr := strip_star (trim l).
 
+Definition first_is_star (t : ustr) : bool :=
+  match t with c :: _ => c =? STAR | [] => false end.
+Definition is_decorated (rest : list ustr) : bool :=
+  forallb first_is_star (filter (fun t => negb (is_nil t)) (map trim rest)).
+
 Definition normalize (s : ustr) : list ustr :=
   match split_nl s with
-  | first :: rest => norm_first first :: map norm_cont rest
+  | first :: rest =>
+      norm_first first :: (if is_decorated rest then map norm_cont rest else map trim rest)
   | [] => []
   end.
 
@@ -137,16 +146,6 @@ Definition declared_lines (s : ustr) : list ustr :=
 (* the text of the comment: non-blank characters of all attributes in order *)
 Definition declared_text (docs : list ustr) : ustr :=
   flat_map (fun s => flat_map nonblank (declared_lines s)) docs.
-
-(* K19: a multi-line doc attribute that is NOT uniformly decorated but has a
-   continuation line beginning with '*': the code strips that star although
-   it is text. *)
-Definition k19_attr (s : ustr) : bool :=
-  match split_nl s with
-  | _ :: rest => negb (decorated rest) && existsb starts_star rest
-  | [] => false
-  end.
-Definition k19_class (docs : list ustr) : bool := existsb k19_attr docs.
 
 (* the property clause, decidable: nothing dropped, nothing reordered *)
 Definition doc_lossless_b (docs : list ustr) (e : extracted) : bool :=
